@@ -159,6 +159,72 @@ def conversion_structure(ctx: Ctx) -> None:
                   message=f"guard `{short(getattr(g, 'test', None))}`, flag after WAIT {sorted(after['WAIT'])}, after other {sorted(after['NOTE_ON'])}", file=fi.file, node=c)
         ctx.check((flag_init is True and negated) or (flag_init is False and not negated), "CONV", f"{q}: an empty sequence gets no cap", function=q,
                   construct="initial cap flag would add a cap to an empty sequence", message=f"initial {flag_init}", file=fi.file, node=fi.node)
+    if len(caps) == 1 and flag is None:
+        # no bookkeeping flag: the guard itself is evaluated in the three situations a sequence can end in
+        c = caps[0]
+        t = kwarg(c, "time")
+        inner = t.args[0] if isinstance(t, ast.Call) and isinstance(t.func, ast.Name) and t.func.id == "int" and t.args else t
+        ctx.check(isinstance(inner, ast.Name) and inner.id == clock, "CONV", f"{q}: the cap sits at the final clock value", function=q,
+                  construct="trailing cap not placed at the accumulated duration", message=short(t), file=fi.file, node=c)
+        aliases = {f"{res}._messages"}
+        for s_ in fi.node.body:
+            if isinstance(s_, ast.Assign) and isinstance(s_.targets[0], ast.Name) and src(s_.value) in aliases:
+                aliases.add(s_.targets[0].id)
+
+        def tv(e, n_events, last_before_clock):
+            if isinstance(e, ast.BoolOp):
+                vals = []
+                for v in e.values:
+                    x = tv(v, n_events, last_before_clock)
+                    vals.append(x)
+                    if isinstance(e.op, ast.And) and x is False:
+                        return False
+                    if isinstance(e.op, ast.Or) and x is True:
+                        return True
+                return None if any(v is None for v in vals) else (all(vals) if isinstance(e.op, ast.And) else any(vals))
+            if isinstance(e, ast.UnaryOp) and isinstance(e.op, ast.Not):
+                x = tv(e.operand, n_events, last_before_clock)
+                return None if x is None else not x
+            if src(e) in aliases:
+                return n_events > 0
+            if isinstance(e, ast.Compare) and len(e.ops) == 1:
+                l, r, op = e.left, e.comparators[0], e.ops[0]
+                if isinstance(l, ast.Call) and isinstance(l.func, ast.Name) and l.func.id == "len" and l.args and src(l.args[0]) in aliases \
+                        and isinstance(r, ast.Constant) and isinstance(r.value, int):
+                    n = 0 if n_events == 0 else 1
+                    if n_events > 0 and r.value >= 1 and isinstance(op, (ast.Gt, ast.NotEq, ast.Eq, ast.LtE)) and r.value == 1:
+                        return None         # one or more events: not decidable against 1
+                    return {ast.Gt: n > r.value, ast.GtE: n >= r.value, ast.Eq: n == r.value, ast.NotEq: n != r.value, ast.Lt: n < r.value,
+                            ast.LtE: n <= r.value}.get(type(op))
+                last_time = [x for x in (l, r) if isinstance(x, ast.Attribute) and x.attr == "time" and isinstance(x.value, ast.Subscript)
+                             and src(x.value.value) in aliases]
+                clk = [x for x in (l, r) if isinstance(x, ast.Name) and x.id == clock]
+                if last_time and clk and n_events > 0:
+                    lt_first = last_time[0] is l
+                    if isinstance(op, (ast.Lt, ast.Gt)):
+                        holds_when_before = isinstance(op, ast.Lt) == lt_first
+                        return last_before_clock if holds_when_before else False if last_before_clock else None
+                    if isinstance(op, (ast.NotEq,)):
+                        return last_before_clock
+                    if isinstance(op, (ast.Eq, ast.GtE, ast.LtE)):
+                        return None if not last_before_clock else (isinstance(op, ast.LtE) == lt_first if not isinstance(op, ast.Eq) else False)
+            return None
+        pcs = []
+        child = c
+        for a in ancestors(c):
+            if isinstance(a, ast.FunctionDef):
+                break
+            if isinstance(a, ast.If):
+                pcs.append((a.test, any(child is x or child in list(ast.walk(x)) for x in a.body)))
+            child = a
+        situations = [("a sequence that consists of waits only", 0, True), ("a sequence that ends in a wait after its last event", 1, True)]
+        for what, n_ev, before in situations:
+            verdicts = [tv(t_, n_ev, before) if holds else (None if tv(t_, n_ev, before) is None else not tv(t_, n_ev, before)) for t_, holds in pcs]
+            reachable = not any(v is False for v in verdicts)
+            ctx.check(reachable, "CONV", f"{q}: {what} gets its trailing cap", function=q,
+                      construct=f"the trailing cap is not added for {what}",
+                      message=f"guard {[short(t_, 70) for t_, _ in pcs]} is false there: the duration carried by the trailing waits is lost in the absolute view "
+                              f"(and the view may be empty, which makes the sequence unreadable)", file=fi.file, node=c)
     # result is sorted before the cap is inserted
     srt = [c for s in fi.node.body if s.lineno > loop.end_lineno for c in ast.walk(s) if isinstance(c, ast.Call) and call_method(c)[1] in ("normalise_absolute", "sort")]
     ctx.check(bool(srt), "CONV", f"{q}: the converted list is put into canonical order", function=q, construct="converted absolute list is not sorted",
